@@ -51,14 +51,14 @@ def replay_family(fam, tier, variant, workdir):
     procs = []
     traces = []
     for i in range(shards):
-        tr = os.path.join(workdir, "%s_%s_u%d_%s_%d.ndjson" % (fam, variant["mode"], variant["unit"], variant["comp"], i))
+        tr = os.path.join(workdir, "%s_%s_u%d_%s_h%d_%d.ndjson" % (fam, variant["mode"], variant["unit"], variant["comp"], variant.get("hl", 64), i))
         traces.append(tr)
         cmd = [VH, "clone-l1", "--scen", scen, "--out", tr, "--unit", str(variant["unit"]), "--comp", variant["comp"],
                "--mode", variant["mode"], "--shards", str(shards), "--shard", str(i), "--seed", str(seed())]
         if variant.get("max_faults"):
             cmd += ["--max-faults", str(variant["max_faults"])]
         procs.append(subprocess.Popen(["timeout", "1200"] + cmd, stdout=subprocess.PIPE, stderr=subprocess.PIPE,
-                                      env=dict(os.environ, RUST_BACKTRACE="0"), preexec_fn=lambda: __import__("resource").setrlimit(__import__("resource").RLIMIT_AS, (8 << 30, 8 << 30))))
+                                      env=dict(os.environ, RUST_BACKTRACE="0", VH_HL=str(variant.get("hl", 64))), preexec_fn=lambda: __import__("resource").setrlimit(__import__("resource").RLIMIT_AS, (8 << 30, 8 << 30))))
     runs = 0
     for p in procs:
         o, e = p.communicate()
@@ -173,6 +173,10 @@ def run_clone_check(prop, tier):
             variants.append((fam, {"unit": 4, "comp": "none", "mode": "faults", "max_faults": 0 if tier == "thorough" else 0}))
         else:
             variants.append((fam, {"unit": 4, "comp": "none", "mode": "plain"}))
+    if prop in ("C02", "C06"):
+        # truncated hash lengths (A1 guard: the harness checks that distinct contents keep distinct truncated hashes)
+        variants.append(("seeds", {"unit": 4, "comp": "none", "mode": "plain", "hl": 8}))
+        variants.append(("mixed", {"unit": 4, "comp": "none", "mode": "plain", "hl": 4}))
     if tier == "thorough" or prop in ("C02",):
         # compressed storage path (units of 64 bytes compress with brotli)
         variants.append((plan["families"][0], {"unit": 64, "comp": "brotli", "mode": "faults" if plan["families"][0] == "crash" else "plain", "max_faults": 4}))
